@@ -7,12 +7,12 @@ TR = ["Layer::to_ring", "Layer::decode_hash", "Layer::nside_time", "Layer::first
 FR = ["Layer::from_ring", "ring::polar_cap_ring_index", "ring::triangular_number_x4", "Layer::build_hash_from_parts", "depth0_hash_unsafe", "Layer::div_by_nside_floor_u8", "Layer::modulo_nside"]
 MANIFEST = dict(
     category="other",
-    text="ALL DEPTHS AT ONCE (Verus, no bound): the real to_ring with its helpers (nside_time, first_hash_in_eqr, minus_nside_x_4nside, triangular_number_x4, div2/div4 helpers), cut out of the working tree on every run, is proved to return ring_first(ring) + rank, where ring is the ring of the cell centre and rank its rank by longitude inside the ring (closed forms of the RING scheme), with 0 <= rank < ring_len(ring), result < 12*nside^2, no overflow, and the integer fix-up of polar_cap_ring_index is proved exact for all h < 2^62 given a float estimate within +-1 (decode_hash's range contract and that float accuracy are assumed; from_ring is not under a Verus contract). In addition, per depth, with ALL cells symbolic (Kani): to_ring is proved to be an order isomorphism onto [0,12*4^d) for the RING order of the cell centres taken from an independent integer geometry (in range, strictly monotone in (ring from the north, x in [0,8)), hence injective, hence bijective); from_ring(to_ring(h)) == h; ring-scheme centre == nested centre of from_ring(r), bit for bit. These are complete proofs for the depths they finish at (order: 0..12, inverse: 0..6, centre: 0..2); the nonlinear ring-start arithmetic defeats SAT beyond, so deeper depths get TIME-BOUNDED REFUTATION SEARCHES with the same obligations (a violation found there is reported with a native replay; finding nothing is labelled inconclusive, never proved). The repaired float-sqrt step (polar_cap_ring_index) has its own contract. Bounded in depth => level 'other', not 'proof'.",
+    text="ALL DEPTHS AT ONCE (Verus, no bound): the real to_ring with its helpers (nside_time, first_hash_in_eqr, minus_nside_x_4nside, triangular_number_x4, div2/div4 helpers), cut out of the working tree on every run, is proved to return ring_first(ring) + rank, where ring is the ring of the cell centre and rank its rank by longitude inside the ring (closed forms of the RING scheme), with 0 <= rank < ring_len(ring), result < 12*nside^2, no overflow, and the integer fix-up of polar_cap_ring_index is proved exact for all h < 2^62 given a float estimate within +-1 The real from_ring (with div_by_nside_floor_u8, modulo_nside, depth0_hash_unsafe) is proved to build the cell whose closed-form RING index is its argument, so to_ring(from_ring(r)) == r for ALL depths and all r, which with the range contract makes the two maps inverse bijections of [0, 12*4^depth); the ring intervals are proved to tile that range in ring order (decode_hash's range contract, decode(build(p)) == p and the float accuracy are assumed contracts). In addition, per depth, with ALL cells symbolic (Kani): to_ring is proved to be an order isomorphism onto [0,12*4^d) for the RING order of the cell centres taken from an independent integer geometry (in range, strictly monotone in (ring from the north, x in [0,8)), hence injective, hence bijective); from_ring(to_ring(h)) == h; ring-scheme centre == nested centre of from_ring(r), bit for bit. These are complete proofs for the depths they finish at (order: 0..12, inverse: 0..6, centre: 0..2); the nonlinear ring-start arithmetic defeats SAT beyond, so deeper depths get TIME-BOUNDED REFUTATION SEARCHES with the same obligations (a violation found there is reported with a native replay; finding nothing is labelled inconclusive, never proved). The repaired float-sqrt step (polar_cap_ring_index) has its own contract. Bounded in depth => level 'other', not 'proof'.",
     note="Plane order == (latitude descending, longitude ascending) assumes unproj is monotone (argued). Depths above the stated ones are searched, not proved. CBMC's IEEE sqrt model is trusted for the ring-index contract.",
     technique="Verus (SMT, z3) function contracts on the mechanically extracted integer core of to_ring / polar_cap_ring_index, unbounded in depth; Kani per-depth full-domain harnesses (CBMC) on the real to_ring/from_ring vs an integer-geometry order; time-bounded CBMC refutation search at high depth",
 )
 EXPLANATION = ("Complete per depth where listed as proved_units; searches (coverage.time_bounded_refutation_searches) are budgeted CBMC runs at depths where the proof does not finish: they decide nothing when they time out. "
-               "The Verus unit ring_core_verus proves the closed form of to_ring for all depths (no bound) under the assumed contracts listed; the inverse direction (from_ring) and the centre agreement remain per-depth Kani proofs / searches.")
+               "The Verus unit ring_core_verus proves the closed form of to_ring for all depths (no bound) under the assumed contracts listed; the centre agreement remains per-depth Kani proofs / searches; the per-depth Kani units for order and round trip are kept as an independent cross-check with the real codec.")
 ASSUMPTIONS = ["order of centres in the projection plane (y descending, then x ascending in [0,8)) equals (latitude descending, longitude ascending in [0,2pi)): unproj monotone, argued from the formulae",
                "depths not listed under proved_units are NOT proved (only searched for counterexamples within a time budget)",
                "Layer::new(depth) used directly",
@@ -20,7 +20,8 @@ ASSUMPTIONS = ["order of centres in the projection plane (y descending, then x a
                "Verus unit: Layer::decode_hash is external_body with the ASSUMED contract d0h < 12, i < nside, j < nside (codec verified by Kani in C04/C18); to_ring's result is stated as a function of the decoded parts",
                "Verus unit: the float expression (((1 + (hash << 1)) as f64).sqrt() as u64 - 1) >> 1 is replaced by an uninterpreted function ASSUMED to be within +-1 of the exact ring index (searched on the real expression by the Kani units pcri_contract_*)",
                "Verus unit: generic helper div2_quotient<T: Shr> is inlined textually as `>> 1u8` (its body `x.shr(1)` is guarded); debug_assert! is turned into a proof obligation; machine integers are modelled exactly (overflow checked), shifts via vstd bit-vector lemmas",
-               "Verus unit: injectivity of (d0h,i,j) -> (ring, rank) is NOT proved in Verus (the per-depth Kani order-isomorphism units cover it for the listed depths)"]
+               "Verus unit: Layer::build_hash_from_parts is external_body with the ASSUMED contract decode_hash(build(d0h,i,j)) == (d0h,i,j), result < n_hash, for valid parts (codec proved per z-order class by Kani, C04/C18); 'bijection' follows from to_ring(from_ring(r)) == r plus the range contract by finiteness (argued, two lines)",
+               "Verus unit: that the closed-form (ring, rank) are the ring and the longitude rank of the CENTRE is by definition of the spec functions (integer geometry of the HEALPix net); the bit-for-bit centre agreement stays with the per-depth Kani units ring_ctr_*"]
 TRUSTED_BASE = ["Verus 0.2026.09.13 + z3 (single-file mode), vstd arithmetic/bit lemmas", "Kani 0.68 / CBMC 6.11 (incl. its IEEE-754 sqrt model)", "harness/verif_spec.rs integer geometry (cell_center)"]
 
 ISO_Q, ISO_T = [0, 1, 2, 4, 8], list(range(0, 13))
@@ -57,15 +58,16 @@ def units():
         t = tiers(d, CTR_Q, CTR_T)
         if t:
             us.append(Unit("ring_ctr_d" + dd, P + "ring_ctr_d" + dd, FR + ["ring::center_of_projected_cell", "Layer::center_of_projected_cell"], "depth %d: ring centre of r == nested centre of from_ring(r), bit for bit, all r" % d, tiers=t, timeout=1500, level="B", bound="depth %d (all cells)" % d))
-    VF = ["Layer::to_ring", "Layer::nside_time", "Layer::first_hash_in_eqr", "Layer::minus_nside_x_4nside", "ring::triangular_number_x4",
+    VF = ["Layer::to_ring", "Layer::from_ring", "Layer::div_by_nside_floor_u8", "Layer::modulo_nside", "depth0_hash_unsafe", "Layer::nside_time", "Layer::first_hash_in_eqr", "Layer::minus_nside_x_4nside", "ring::triangular_number_x4",
           "ring::polar_cap_ring_index", "div2_remainder", "div4_quotient", "div4_remainder"]
     us.append(Unit("ring_core_verus", "contracts/verus_ring.py", VF,
                    "ALL depths 0..=29, all cells, no bound: to_ring(hash) == ring_first(ring) + rank with ring = nside*(d0h/4+2) - (i+j+2) (ring of the cell centre), "
                    "rank = rank of the centre by longitude inside the ring (caps: quadrant*(cells per quadrant) + (l+ring)/2; band: floor(X/2), X the planar abscissa in [0,8 nside)), "
                    "0 <= rank < ring_len(ring), result < 12*nside^2, no arithmetic overflow/underflow, debug assertion never fires; helpers equal their closed forms; "
+                   "from_ring(r) = build(d0h,i,j) with ring_index(d0h,i,j) == r and valid parts; hence to_ring(from_ring(r)) == r for every r < 12*nside^2 (harness ring_round_trip over the two contracts) and, with the range contract, both maps are inverse bijections; ring intervals tile [0,12 nside^2) in ring order; "
                    "polar_cap_ring_index(h) = r with 2r(r+1) <= h < 2(r+1)(r+2) for all h < 2^62 GIVEN a float estimate within +-1",
                    engine="verus", level="P", timeout=600, extra=dict(spec="verus_ring", rlimit=60),
-                   bound="none (all depths, all cells); decode_hash contract and float-sqrt accuracy assumed"))
+                   bound="none (all depths, all cells); codec contracts (decode_hash range, decode(build(p)) == p) and float-sqrt accuracy assumed"))
     us.append(Unit("ring_core_verus_canary", "contracts/verus_ring.py", VF, "vacuity guard: a false claim after to_ring under the same preconditions must fail",
                    kind="canary", engine="verus", timeout=600, extra=dict(spec="verus_ring", rlimit=60)))
     us.append(Unit("ring_canary_d02", P + "ring_canary_d02", TR, "vacuity guard", kind="canary"))
